@@ -90,9 +90,16 @@ func (c c34Chan) eq(o c34Chan) bool {
 
 func (r c34Res) eq(o c34Res) bool { return r.Ok == o.Ok && eqStrs(r.Out, o.Out) }
 
+type c34PinRow struct {
+	Track []string `json:"track"`
+	Res   []c34Res `json:"res"`
+}
+
 type c34Table struct {
-	Part string     `json:"part"`
-	News [][]string `json:"news"`
+	Part  string       `json:"part"`
+	News  [][]string   `json:"news"`
+	XNews [][]string   `json:"xnews"`
+	XRows []c34PinRow  `json:"xrows"`
 	Rows []struct {
 		In    []string `json:"in"`
 		PV    c34Chan  `json:"pv"`
@@ -162,6 +169,22 @@ func TestVerifC34Table(t *testing.T) {
 				}
 			}
 		case "pinned":
+			// directed extra rows: prefix-related tracks, leading-slash requests
+			for _, r := range tb.XRows {
+				tr := joinC(r.Track)
+				if len(r.Res) != len(tb.XNews) {
+					t.Fatalf("%s: xrow %q has %d results for %d requests", path, tr, len(r.Res), len(tb.XNews))
+				}
+				for j, exp := range r.Res {
+					nw := joinC(tb.XNews[j])
+					got := c34FromRes(channel.ResolvePinned(tr, nw))
+					if !got.eq(exp) {
+						mism("ResolvePinned", []string{tr, nw}, exp, got)
+					}
+					evals++
+					outcomes[fmt.Sprintf("pinned:%v:%s", got.Ok, joinC(got.Out))] = true
+				}
+			}
 			for _, r := range tb.Rows {
 				tr := joinC(r.Track)
 				if len(r.Res) != len(tb.News) {
@@ -353,8 +376,12 @@ func TestVerifC34Random(t *testing.T) {
 		pin := c34RandSeq(r, 2)
 		if r.Intn(3) == 0 {
 			pin = []string{[]string{"t1", "2.0", "latest", "foo"}[r.Intn(4)]}
-			if r.Intn(2) == 0 { // a request that starts like the pinned track
+			switch r.Intn(3) {
+			case 0: // a request whose track extends the pinned track
 				nw = append([]string{pin[0] + []string{"", "0", "-x"}[r.Intn(3)]}, c34RandSeq(r, 2)...)
+			case 1: // a request whose track is a proper prefix of the pinned track, or empty (leading slash)
+				pin = []string{[]string{"t10", "t1.1", "2.0", "foo"}[r.Intn(4)]}
+				nw = append([]string{pin[0][:r.Intn(len(pin[0]))]}, c34RandSeq(r, 2)...)
 			}
 		}
 		em.emit(map[string]interface{}{"case": i, "s": s, "cur": cur, "new": nw, "pin": pin,
